@@ -358,7 +358,10 @@ def make_flags(st):
 
 
 # steps that are never wrapped in jit: they patch globals / run python-side statistics / are no library call
-NOJIT = {"Nop", "Sample", "NewTrunc", "TruncIntegrate", "TruncCall", "TruncGetDensity", "TruncStat"}
+NOJIT = {"Nop", "Sample", "NewNN", "NewTrunc", "TruncIntegrate", "TruncCall", "TruncGetDensity", "TruncStat"}
+
+
+SHARED_JIT_ACTS = {"NNOp", "SetControl"}
 
 
 class Replayer:
@@ -384,8 +387,12 @@ class Replayer:
         # One jitted function per (action, plain arguments): like user code that jits a function once and calls it with
         # many objects.  Steps of different behaviours with the same signature share the compiled function, so a stale
         # compilation-cache hit (equal treedefs for objects that differ in static data) shows up as a value mismatch.
-        key = json.dumps([st["act"], st["a"]], sort_keys=True)
-        entry = self.jit_cache.get(key)
+        # (Sharing is limited to the calls that take an object with static callable data - the NN-controlled conditional:
+        # sharing every step's function made jaxlib 0.11 crash with a segmentation fault in its dispatch cache when one
+        # function was re-traced for many different pytree structures.)
+        share = st["act"] in SHARED_JIT_ACTS
+        key = json.dumps([st["act"], st["a"]], sort_keys=True) if share else None
+        entry = self.jit_cache.get(key) if share else None
         if entry is None:
             box = {}
 
@@ -405,7 +412,7 @@ class Replayer:
                 return after, new, val
 
             entry = (jax.jit(g), box)
-            if len(self.jit_cache) < 5000:
+            if share and len(self.jit_cache) < 5000:
                 self.jit_cache[key] = entry
         else:
             self.count("jit_function_reused")
